@@ -3,6 +3,7 @@ package verifharness
 import (
 	"fmt"
 	"net"
+	"time"
 
 	"github.com/Jigsaw-Code/outline-ss-server/verifrt/simrt"
 )
@@ -169,6 +170,50 @@ func runC09(rc *RunCtx) {
 					rc.Failf("wrong-id:udp", "service %d: a datagram under key %s sent to %s while a sibling listener received another one was attributed to %q (first configured id: %q)", si, x.k, x.ln.Addr, x.got, want)
 				}
 			}
+		}
+	}
+	// "After a configuration is loaded": also when it replaces another one. In a
+	// third of the runs a second configuration is loaded over the first, half of the
+	// time in the other file format only (legacy keys <-> services): the relation
+	// holds for the new one, and what only the old one had serves nobody any more.
+	if !respelled && G.Draw(3) == 0 {
+		rc.Phase = "reload"
+		next := genCfg(G, U, cfg, 4)
+		if G.Draw(2) == 0 {
+			if len(cfg.Legacy) > 0 && len(next.Services) > 0 {
+				next.Legacy = nil
+			} else if len(cfg.Services) > 0 && len(next.Legacy) > 0 {
+				next.Services = nil
+			}
+			rc.Probe("reload_into_the_other_format")
+		}
+		if err := ms.reload(next, false); err != nil {
+			rc.Failf("valid-reload-failed", "a valid configuration failed to load over another one: %v\n%s", err, next.YAML())
+		} else {
+			simrt.Sleep(time.Millisecond)
+			rc.D("second config: %s", describeCfg(next))
+			checkRelation(rc, ms, next, U, "after-reload:", "after a second configuration was loaded", 1)
+			kept := map[string]bool{}
+			for _, o := range next.owners() {
+				kept[lnKey(o.ln)] = true
+			}
+			for _, o := range cfg.owners() {
+				if kept[lnKey(o.ln)] {
+					continue
+				}
+				for _, k := range o.keys {
+					got := ""
+					if o.ln.Type == "tcp" {
+						got = ms.probeTCP(o.ln.Addr, k, nil).authID
+					} else {
+						got, _ = ms.probeUDP(o.ln.Addr, k)
+					}
+					if got != "" {
+						rc.Failf("after-reload:foreign-key-authenticated:"+o.ln.Type, "listener %s belongs to no service or legacy port of the configuration now loaded (the one before had it); key %s still authenticates there as %q", lnKey(o.ln), k, got)
+					}
+				}
+			}
+			cfg = next
 		}
 	}
 	rc.Nontrivial = len(cfg.owners()) > 0
